@@ -38,7 +38,7 @@ def arrivals(ctx, P, iters):
             if e.kind == "assign":
                 return e.d["target"].startswith("self.event_dates_dict[") or (e.d.get("local") and isinstance(e.d.get("value_node"), ast.Call) and call_name(e.d["value_node"]) == "batch_size")
             return e.kind in ("iter", "loopexit") and isinstance(e.node, ast.For)
-        w = Walker(P, view, keep=keep, inline=lambda ev: False, loop_iters=iters)
+        w = Walker(P, view, keep=keep, inline=rules.new_helper, loop_iters=iters)
         done = set()
 
         def viol(reason, construct, msg, where, st):
@@ -129,7 +129,7 @@ def batch_guard(ctx, P):
     ob = ctx.ob("G10", "batch_size accepts exactly `isinstance(batch, int) and batch >= 0`, otherwise raises")
     for view in family_views(P, "ArrivalNode"):
         cls, fn = view.method("batch_size")
-        w = Walker(P, view, keep=lambda e: e.kind in ("guard", "return", "raise"), track=lambda t, f: True, inline=lambda ev: False)
+        w = Walker(P, view, keep=lambda e: e.kind in ("guard", "return", "raise"), track=lambda t, f: True, inline=rules.new_helper)
         rets = raises = 0
         for st in w.paths_of(cls, fn):
             pcs = [e.d["formula"] if e.pol else guards.neg(e.d["formula"]) for e in st.events if e.kind == "guard"]
@@ -188,7 +188,7 @@ def validated_api(ctx, P):
         raise AnalysisError("Distribution._sample not found")
     fn = d.methods["_sample"]
     v = P.view("Distribution")
-    w = Walker(P, v, keep=lambda e: e.kind in ("guard", "return", "raise") or (e.kind == "assign" and e.d.get("local")), track=lambda t, f: True, inline=lambda ev: False)
+    w = Walker(P, v, keep=lambda e: e.kind in ("guard", "return", "raise") or (e.kind == "assign" and e.d.get("local")), track=lambda t, f: True, inline=rules.new_helper)
     okr = okx = False
     for st in w.paths_of(d, fn):
         pcs = [e.d["formula"] if e.pol else guards.neg(e.d["formula"]) for e in st.events if e.kind == "guard"]
@@ -246,7 +246,7 @@ def service_duration(ctx, P, iters):
                     t = e.d["target"]
                     return t.endswith(".service_start_date") or t.endswith(".service_end_date") or t.endswith(".service_time")
                 return e.kind == "call" and e.d["meth"] in ("get_service_time", "give_individual_a_service_time", "give_service_time_after_preemption")
-            w = Walker(P, view, keep=keep, inline=lambda ev: False, loop_iters=iters)
+            w = Walker(P, view, keep=keep, inline=rules.new_helper, loop_iters=iters)
             for st in w.paths_of(cls, fn):
                 if st.status == "raise":
                     continue
@@ -289,7 +289,7 @@ def service_duration(ctx, P, iters):
         cls, fn = view.method("give_individual_a_service_time")
         tok = fn.args.args[1].arg
         w = Walker(P, view, keep=lambda e: e.kind == "guard" or (e.kind == "assign" and not e.d.get("local")) or (e.kind == "call" and e.d["meth"] in ("give_service_time_after_preemption",)),
-                   track=lambda t, f: True, inline=lambda ev: False)
+                   track=lambda t, f: True, inline=rules.new_helper)
         okk, npaths = True, 0
         for st in w.paths_of(cls, fn):
             if st.status == "raise":
